@@ -1,7 +1,7 @@
 //! `board` family: drive inkayaku_board::Bitboard through its public API and record every call.
 //!
 //! Case: {"id": n, "fen": "...", "ops": [ {"op": "gen"} | {"op":"make","uci":..} | {"op":"unmake"} |
-//!        {"op":"dfs","depth":d} | {"op":"walk","plies":n,"seed":s} | {"op":"line","plies":n,"seed":s} |
+//!        {"op":"reload"} | {"op":"bare_all"} | {"op":"walk_uci","plies":n,"seed":s} | {"op":"dfs","depth":d} | {"op":"walk","plies":n,"seed":s} | {"op":"line","plies":n,"seed":s} |
 //!        {"op":"find_uci","s":..} | {"op":"make_uci","s":..} | {"op":"make_all_uci","list":[..]} |
 //!        {"op":"uci_to_pgn","s":..} | {"op":"pgn_to_bb","s":..} | {"op":"uci_batch"} | {"op":"san_all"} |
 //!        {"op":"perft","depth":d} ] }
@@ -42,6 +42,7 @@ struct Ctx<'a> {
     id: u64,
     board: Bitboard,
     made: Vec<Move>,
+    fen: String,
 }
 
 struct CasePanic(String, String);
@@ -214,6 +215,54 @@ impl<'a> Ctx<'a> {
                 }
             }
             "unmake" => self.unmake(),
+            // start again from the case's position (a fresh board: nothing has been made or probed on it)
+            "reload" => {
+                let fen = self.fen.clone();
+                let (b, sn) = g!("from_fen_string", { let b = Bitboard::from_fen_string(&fen).expect("fen loaded before"); let s = snap(&b); (b, s) });
+                self.board = b;
+                self.made.clear();
+                self.out.emit(&json!({"c": id, "ev": "load", "fen": fen, "st": "ok", "snap": sn}));
+                Ok(())
+            }
+            // every move the generator emits for the case's position, each made once on a fresh board: no legality probe, no
+            // unmake, nothing else has touched the board when make runs
+            "bare_all" => {
+                let fen = self.fen.clone();
+                let fresh = |fen: &str| { let b = Bitboard::from_fen_string(fen).expect("fen loaded before"); let s = snap(&b); (b, s) };
+                let moves = g!("generate_pseudo_legal_moves", { let (b, _) = fresh(&fen); b.generate_pseudo_legal_moves() });
+                let mut made = Vec::new();
+                for mv in moves {
+                    let (b, sn) = g!("from_fen_string", fresh(&fen));
+                    self.board = b;
+                    self.made.clear();
+                    self.out.emit(&json!({"c": id, "ev": "load", "fen": fen, "st": "ok", "snap": sn}));
+                    made.push(mv.to_uci_string());
+                    self.make(mv)?;
+                }
+                let (b, sn) = g!("from_fen_string", fresh(&fen));
+                self.board = b;
+                self.made.clear();
+                self.out.emit(&json!({"c": id, "ev": "load", "fen": fen, "st": "ok", "snap": sn}));
+                self.out.emit(&json!({"c": id, "ev": "bare_done", "made": made}));
+                Ok(())
+            }
+            // a game played through make_uci only (the `position ... moves` path); the next move is chosen on a scratch copy
+            "walk_uci" => {
+                let mut rng = StdRng::seed_from_u64(u64_of(op, "seed", 0));
+                for _ in 0..u64_of(op, "plies", 10) {
+                    let cur = Fen::from(&self.board).fen;
+                    let legal = g!("generate_legal_moves", { let mut sc = Bitboard::from_fen_string(&cur).expect("own fen"); ucis(&sc.generate_legal_moves()) });
+                    if legal.is_empty() { break; }
+                    let s = legal[rng.gen_range(0..legal.len())].clone();
+                    let r = g!("make_uci", self.board.make_uci(&s));
+                    let sn = g!("snapshot", snap(&self.board));
+                    match r {
+                        Ok(()) => self.out.emit(&json!({"c": id, "ev": "make_uci", "s": s, "st": "ok", "err": "", "snap": sn})),
+                        Err(e) => self.out.emit(&json!({"c": id, "ev": "make_uci", "s": s, "st": "err", "err": Self::err_name(&e), "snap": sn})),
+                    }
+                }
+                Ok(())
+            }
             "dfs" => { let m = str_of(op, "mode"); self.dfs(u64_of(op, "depth", 1), if m.is_empty() { "gen" } else { &m }) }
             "walk" => { let m = str_of(op, "mode"); self.walk(u64_of(op, "plies", 10), u64_of(op, "seed", 0), false, if m.is_empty() { "gen" } else { &m }) }
             "line" => { let m = str_of(op, "mode"); self.walk(u64_of(op, "plies", 10), u64_of(op, "seed", 0), true, if m.is_empty() { "gen" } else { &m }) }
@@ -342,7 +391,7 @@ pub fn run(args: &[String]) -> i32 {
                 continue;
             }
         };
-        let mut ctx = Ctx { out: &mut out, id, board, made: Vec::new() };
+        let mut ctx = Ctx { out: &mut out, id, board, made: Vec::new(), fen: fen.clone() };
         if let Some(ops) = case.get("ops").and_then(|o| o.as_array()) {
             for op in ops {
                 if let Err(CasePanic(during, msg)) = ctx.op(op) {
